@@ -82,6 +82,13 @@ def handleC16 (op : String) (args : List Sexp) : Option Ans :=
     pure (match r.1 with
       | .panic s => if Sites.openIds.contains s then .ok (tag "out-of-domain") else .ok (list [tag "fail", tag (Sites.report s)])
       | _ => .ok (tag "pass"))
+  | "oracle-dyn-bounded", spec => do
+    -- `dyn_nodes_bounded`: at most 65536 nodes per resolved constant
+    let spec ← specOf spec
+    pure (match (Dyn.dynOp spec).run.1 with
+      | .ok n => if n ≤ 65536 then .ok (tag "pass") else .ok (list [tag "fail", tag "expansion"])
+      | .err => .ok (tag "pass")
+      | .panic s => .ok (list [tag "fail", tag (Sites.report s)]))
   | "oracle-write-no-panic", [b] => do
     let b ← toBytes? b
     pure (if !writeDomain b then .ok (tag "out-of-domain")
